@@ -29,6 +29,8 @@ SOURCES = [((12, 13, 150), 16, (4, 4, -1), 2), ((17, 18, 40), 32, (8, 8, 16), 1)
 ZERO_SOURCE = ((12, 9, 40), 32, (4, 4, -1), 2, 4.0, 'zero')
 # descending line axes (and negative crossline numbers)
 DESC_SOURCE = ((10, 13, 40), 32, (8, 8, 16), 1, 4.0, 'desc')
+# six-digit line numbers (coordinate boxes resolved with a relative tolerance would land on a neighbouring line)
+BIG_SOURCE = ((16, 9, 40), 32, (4, 4, -1), 1, 4.0, 'big')
 
 
 def make_dup_source(d, k, seed):
@@ -39,6 +41,7 @@ def make_dup_source(d, k, seed):
     sgy = os.path.join(d, f'dup{k}.sgy')
     inputs.write_segy(sgy, cube, 100 + 2 * np.arange(shape[0]), -7 + 3 * np.arange(shape[1]), 8.0 + 4.0 * np.arange(shape[2]),
                       headers={segyio.TraceField.TRACE_SEQUENCE_LINE: t + 1, segyio.TraceField.CDP: 5 * t + 2, segyio.TraceField.CDP_TRACE: 5 * t + 2,
+                               segyio.TraceField.SourceX: 7 * t - 3, segyio.TraceField.GroupX: 7 * t - 3, segyio.TraceField.SourceMeasurementUnit: 7 * t - 3,      # (duplicates far apart in the table)
                                segyio.TraceField.ShotPoint: 1000 - t})
     p = os.path.join(d, f'dup{k}.sgz')
     writers.segy_to_sgz(sgy, p, 32, (4, 4, -1), header_detection='heuristic')
@@ -73,6 +76,8 @@ def make_source(d, k, spec, seed):
         il, xl, zs = -8 + 2 * np.arange(shape[0]), -12 + 3 * np.arange(shape[1]), -16.0 + dz * np.arange(shape[2])
     if len(spec) > 5 and spec[5] == 'desc':
         il, xl = 130 - 2 * np.arange(shape[0]), -7 - 3 * np.arange(shape[1])
+    if len(spec) > 5 and spec[5] == 'big':
+        il, xl = 150000 + np.arange(shape[0]), 250000 + 2 * np.arange(shape[1])
     th = {}
     t = np.arange(shape[0] * shape[1]).reshape(shape[0], shape[1])
     for j, f in enumerate([segyio.TraceField.CDP_X, segyio.TraceField.CDP, segyio.TraceField.ShotPoint][:extra]):
@@ -239,7 +244,7 @@ def judge(run, S, mode, box, r, ev):
 def prepare(run):
     d = env.subdir('c10src')
     quick = run.tier == 'quick'
-    specs = (SOURCES[:7] if quick else SOURCES) + [ZERO_SOURCE, DESC_SOURCE]
+    specs = (SOURCES[:7] if quick else SOURCES) + [ZERO_SOURCE, DESC_SOURCE, BIG_SOURCE]
     S = []
     for k, spec in enumerate(specs + ['dup', 'irr']):
         mask = None
@@ -258,9 +263,10 @@ def prepare(run):
         shape, rate, bs, extra = spec[:4]
         zero = len(spec) > 5 and spec[5] == 'zero'
         desc = len(spec) > 5 and spec[5] == 'desc'
+        big = len(spec) > 5 and spec[5] == 'big'
         dz_us = int(round(1000 * (spec[4] if len(spec) > 4 else 4.0)))
         S.append({'path': p, 'label': f'numpy{shape}r{rate}b{bs}h{extra}', 'F': fc.F, 'snap': _snapshot(p), 'data': raw[H['n_header_blocks'] * 4096:H['n_header_blocks'] * 4096 + H['data_blocks'] * 4096],
-                  'T': c03.truth(3, shape, fc.F['b'], rate, shape[0] * shape[1], (-8, 2) if zero else (130, -2) if desc else (100, 2), (-12, 3) if zero else (-7, -3) if desc else (-7, 3),
+                  'T': c03.truth(3, shape, fc.F['b'], rate, shape[0] * shape[1], (-8, 2) if zero else (130, -2) if desc else (150000, 1) if big else (100, 2), (-12, 3) if zero else (-7, -3) if desc else (250000, 2) if big else (-7, 3),
                                  8 if not zero else -16, dz_us, source_format=20 if extra not in ('dup', 'irr') else 0), 'mask': mask,
                   **({'z0_us': -16000} if zero else {})})
     # a source that already uses the float64 sample-axis fields: a crop of the 1001 us source starting between whole milliseconds
